@@ -1244,6 +1244,10 @@ fn gen_case(batch: &str, index: u64, seed: u64) -> Case {
             if kernel.kind == "poly" && pr.chance(0.4) {
                 // every small integer degree, including the constant kernel (degree 0)
                 kernel.degree = *pr.pick(&[0.0, 0.0, 1.0, 2.0, 3.0, 4.0, 5.0]);
+                // ... and larger ones: whole-number degrees have no upper end (values beyond the element type's range are not judged)
+                if pr.chance(0.4) {
+                    kernel.degree = pr.usize_in(6, 20) as f64;
+                }
             }
             let mut x = x;
             if kernel.kind == "poly" && pr.chance(0.3) {
@@ -1474,7 +1478,18 @@ fn gen_case(batch: &str, index: u64, seed: u64) -> Case {
             // the non-negative orthant (rows and queries folded by |.|, coef0 >= 0)
             let mut kernel = kernel;
             let mut fd = Xo::fork(seed, "fractional-degree");
-            if kernel.kind == "poly" && fd.chance(0.2) {
+            if kernel.kind == "poly" && fd.chance(0.12) {
+                // larger whole-number degrees, kept where kernel values stay below ~1e6: gamma is chosen so that the base
+                // gamma * x.y + coef0 stays within +-(1e6)^(1/d). (With values of 1e17 the trainer's inner loop - "until the
+                // gradient gap is below 1000" - needs 1e8 and more passes: slow, not wrong, and never to be judged by a budget;
+                // the first version of this workload ran into the 4e9 fallback budget in 4 of 93 000 fits.)
+                kernel.degree = fd.usize_in(4, 12) as f64;
+                let maxdot = x.iter().chain(queries.iter()).map(|r| r.iter().map(|v| v * v).sum::<f64>()).fold(1e-9f64, f64::max);
+                let base_max = (1.0e6f64).powf(1.0 / kernel.degree);
+                kernel.coef0 = fd.range(0.0, 1.0);
+                kernel.gamma = (base_max - kernel.coef0) / maxdot;
+                dkind.push_str("+high-degree");
+            } else if kernel.kind == "poly" && fd.chance(0.2) {
                 kernel.degree = if fd.chance(0.7) { *fd.pick(&[0.5, 1.5, 2.5]) } else { fd.range(0.2, 3.8) };
                 kernel.coef0 = kernel.coef0.abs();
                 for row in x.iter_mut().chain(queries.iter_mut()) {
